@@ -460,15 +460,22 @@ def sys_check(h, heads, rws, before, plan, inv_before, added_k, phases, extra, g
                     kin_inv[el] = kin_inv.get(el, 0.0) + float(q * coef) * row[c]
         if not ok:
             continue
-        sname = (h.get("punch", {}).get("surfaces") or [None])[0]
-        cw = col.get("EDLW_%s" % sname)
-        dlw = row[cw] if cw is not None and row[cw] else 0.0        # SYS("H"/"O") leave out the diffuse-layer water
+        se = before.get(("SURFACE_RAW", plan["use"].get("surface")))
+        debye = se is not None and float(val(se["opts"], "debye_lengths", "0")) > 0
+        dlw = 0.0                                                    # SYS("H"/"O") leave out the diffuse-layer water
+        for sname in (h.get("punch", {}).get("surfaces") or []):
+            cw = col.get("EDLW_%s" % sname)
+            if cw is not None and row[cw]:
+                dlw += row[cw]
         if dlw and not gfw_water:
             continue
         for el in h["elements"]:
             c = col.get("SYS_" + el)
             if c is None or row[c] is None or el in skip:
                 continue
+            if debye and el in ("H", "O"):
+                continue        # -donnan debye_lengths: the layer's water mass follows the ionic strength during the step and
+                                # EDL("water") at punch time is not the mass the stored composition was computed with
             got = row[c] + kin_inv.get(el, 0.0)
             if dlw and el in ("H", "O"):
                 got += (2 if el == "H" else 1) * dlw / gfw_water
@@ -766,33 +773,41 @@ def cross_check(h, heads, rws, after, plan, inv_after, phases, extra):
                         close(last[col["S_S_" + o["args"][0]]], float(val(o["opts"], "moles")), "S_S(%s)" % o["args"][0])
     if "surface" in sv and ("SURFACE_RAW", sv["surface"]) in after:
         e = after[("SURFACE_RAW", sv["surface"])]
-        stot, dtot = {}, {}
-        for o in e["opts"]:
-            if o["key"] == "component":
-                for r in rows(o["opts"], "totals"):
-                    stot[r[0]] = stot.get(r[0], 0.0) + float(r[1])
-            elif o["key"] == "charge_component":
-                for r in rows(o["opts"], "diffuse_layer_totals"):
-                    dtot[r[0]] = dtot.get(r[0], 0.0) + float(r[1])
-        sname = (h.get("punch", {}).get("surfaces") or ["Hfo"])[0]
         has_dl = val(e["opts"], "dl_type") != "0"
-        for el in h["elements"]:
-            if "SURF_%s_%s" % (el, sname) in col:
-                close(last[col["SURF_%s_%s" % (el, sname)]], stot.get(el, 0.0), "SURF(%s,%s)" % (el, sname))
-            if "EDL_%s_%s" % (el, sname) in col and has_dl and el not in ("H", "O"):
-                close(last[col["EDL_%s_%s" % (el, sname)]], dtot.get(el, 0.0), "EDL(%s,%s)" % (el, sname))
-        # EDL("H"/"O") leave out the water of the diffuse layer, EDL("water") gives its mass: the dump's H and O must be
-        # the punched ions + that water
-        cw, cH, cO = col.get("EDLW_" + sname), col.get("EDL_H_" + sname), col.get("EDL_O_" + sname)
-        if has_dl and None not in (cw, cH, cO) and None not in (last[cw], last[cH], last[cO]):
-            dH, dO = dtot.get("H", 0.0) - last[cH], dtot.get("O", 0.0) - last[cO]
-            n += 1
-            if abs(dH - 2 * dO) > 1e-8 * max(abs(dH), 1e-12):
-                probs.append("diffuse-layer water: H %.15g vs 2*O %.15g" % (dH, 2 * dO))
-            elif dO > 0 and last[cw] > 0:
-                gfw[0] = last[cw] / dO
-                if not (0.01795 < gfw[0] < 0.01805):
-                    probs.append("diffuse-layer water: EDL(water)=%.15g kg but H2O in the dump's diffuse layer %.15g mol" % (last[cw], dO))
+        wsum, osum = 0.0, 0.0
+        for sname in (h.get("punch", {}).get("surfaces") or ["Hfo"]):
+            # one surface = one charge component (its site types share it); totals of this surface only
+            stot, dtot = {}, {}
+            for o in e["opts"]:
+                if o["key"] == "component" and val(o["opts"], "charge_name", o["args"][0].split("_")[0]) == sname:
+                    for r in rows(o["opts"], "totals"):
+                        stot[r[0]] = stot.get(r[0], 0.0) + float(r[1])
+                elif o["key"] == "charge_component" and o["args"][0] == sname:
+                    for r in rows(o["opts"], "diffuse_layer_totals"):
+                        dtot[r[0]] = dtot.get(r[0], 0.0) + float(r[1])
+            for el in h["elements"]:
+                if "SURF_%s_%s" % (el, sname) in col:
+                    close(last[col["SURF_%s_%s" % (el, sname)]], stot.get(el, 0.0), "SURF(%s,%s)" % (el, sname))
+                if "EDL_%s_%s" % (el, sname) in col and has_dl and el not in ("H", "O"):
+                    close(last[col["EDL_%s_%s" % (el, sname)]], dtot.get(el, 0.0), "EDL(%s,%s)" % (el, sname))
+            # EDL("H"/"O") leave out the water of the diffuse layer, EDL("water") gives its mass: the dump's H and O must
+            # be the punched ions + that water
+            cw, cH, cO = col.get("EDLW_" + sname), col.get("EDL_H_" + sname), col.get("EDL_O_" + sname)
+            if has_dl and float(val(e["opts"], "debye_lengths", "0")) == 0 and None not in (cw, cH, cO) and \
+                    None not in (last[cw], last[cH], last[cO]):
+                dH, dO = dtot.get("H", 0.0) - last[cH], dtot.get("O", 0.0) - last[cO]
+                n += 1
+                if abs(dH - 2 * dO) > 1e-8 * max(abs(dH), 1e-12):
+                    probs.append("diffuse-layer water of %s: H %.15g vs 2*O %.15g" % (sname, dH, 2 * dO))
+                elif dO > 0 and last[cw] > 0:
+                    g1 = last[cw] / dO
+                    wsum += last[cw]
+                    osum += dO
+                    if not (0.01795 < g1 < 0.01805):
+                        probs.append("diffuse-layer water of %s: EDL(water)=%.15g kg but H2O in the dump's diffuse layer %.15g mol"
+                                     % (sname, last[cw], dO))
+        if wsum > 0 and osum > 0 and 0.01795 < wsum / osum < 0.01805:
+            gfw[0] = wsum / osum
     return n, probs, gfw[0]
 
 
@@ -1031,6 +1046,9 @@ def run(ctx):
             forced = list(gen.KINDS)                         # and all together
         hs.append(gen.history(ctx.rng, forced))
     hs += gen.known_histories()                              # deterministic reproductions of the listed known findings
+    cdir = vlib.ROOT / "corpus" / "C02"                      # fixed cases (past misses), always run
+    for f in sorted(cdir.glob("*.json")) if cdir.exists() else []:
+        hs.append(json.loads(f.read_text()))
     seen_findings = set()
     tags = {}
     stats = dict(histories=0, simulations_judged=0, steps=0, element_checks=0, runs_with_errors=0, crosschecks=0, trace_not_judged=0,
@@ -1041,8 +1059,9 @@ def run(ctx):
     dstats = dict(histories_driven=0, steps_judged=0, assemble_comparisons=0, element_checks=0, mass_balance_returns=0,
                   errors=0, timeouts=0, problems=0, worst_rel=0.0)
     for h, res in zip(hs, driven):
-        if "known:" in " ".join(h["tags"]):
-            continue
+        if "known:" in " ".join(h["tags"]) or "corpus:" in " ".join(h["tags"]):
+            if "known:" in " ".join(h["tags"]):
+                continue
         j = judge_drive(ctx, h, res, ctx.pmodel)
         dstats["histories_driven"] += 1
         dstats["steps_judged"] += j["steps"]
